@@ -135,12 +135,16 @@ def check(report, res):
             scalars[(cat, field)] = (v, u)
     # ---- profile tables ----------------------------------------------------------------
     tables = {}
-    for key in PROFILE_KEYS:
+    # every table the result exposes, whatever it is called (not only the ones known when this was written): a category whose
+    # value is a list of rows
+    keys = list(PROFILE_KEYS) + sorted(k_ for k_, v_ in result.items()
+                                       if k_ not in PROFILE_KEYS and isinstance(v_, list) and v_ and isinstance(v_[0], (list, tuple)))
+    for key in keys:
         tab = result.get(key)
         if not isinstance(tab, list) or len(tab) < 1:
             continue
         tables[key] = tab
-        titles = REPORT_TABLE_TITLES.get(key)
+        titles = REPORT_TABLE_TITLES.get(key, (key,) if key not in PROFILE_KEYS else None)
         if titles is None:
             continue   # CARBON REVENUE PROFILE is derived from the revenue & cashflow table, not printed as such
         rows = table_rows(lines, titles)
@@ -254,7 +258,12 @@ def _printed_matches(x, tok):
     return abs(Decimal(xf) - d) <= q / 2 * (1 + Decimal('1e-6')) + abs(Decimal(xf)) * Decimal('1e-12')
 
 
-def check_json(report, j, spell):
+def unit_registry():
+    from geophires_x.Units import get_unit_registry
+    return get_unit_registry()
+
+
+def check_json(report, j, spell, ureg=None):
     """-> (problems, stats).  For every scalar numeric entry of the JSON whose display name (or name) is the label of exactly
     one 'label: number [unit]' line of the report, printed in the unit the JSON states, the printed number must be the JSON
     value rounded to the printed precision.  Anything that cannot be matched unambiguously is counted, not judged."""
@@ -291,8 +300,27 @@ def check_json(report, j, spell):
         unit_txt = ' '.join(toks[1:])
         cu = e.get('CurrentUnits')
         allowed = spell.get(cu, set()) if isinstance(cu, str) else set()
-        if not (unit_txt in allowed or (unit_txt == '' and (not allowed or allowed <= {'', 'None', 'none'}))):
+        if not (unit_txt in allowed or (unit_txt == '' and (not allowed or allowed <= {'', 'None', 'none', '1'}))):
+            # the report prints the line in another unit than the JSON states: the same quantity all the same, if the JSON
+            # value converted to the printed unit is the printed number
             st['json_unit_differs'] += 1
+            if ureg is None or len(allowed) != 1 or _printed_matches(0.0, toks[0]) is None:
+                continue
+            try:
+                conv = ureg.Quantity(float(v), next(iter(allowed))).to(unit_txt or 'dimensionless').magnitude
+            except Exception as ex:  # noqa: BLE001
+                if type(ex).__name__ == 'DimensionalityError':
+                    st['json_compared'] += 1
+                    problems.append(('json_mismatch', 'unit', f'{key!r}: the JSON says {v!r} {cu} ({next(iter(allowed))}), the report line {lab!r} '
+                                                             f'prints {t[0].strip()!r}: not the same kind of quantity'))
+                else:
+                    st['json_unit_unknown'] = st.get('json_unit_unknown', 0) + 1
+                continue
+            st['json_compared'] += 1
+            st['json_compared_after_conversion'] = st.get('json_compared_after_conversion', 0) + 1
+            if not _printed_matches(conv, toks[0]) and not (lab in DISPLAYED_NEGATED and _printed_matches(-conv, toks[0])):
+                problems.append(('json_mismatch', 'unit', f'{key!r}: the JSON says {v!r} {cu}, i.e. {conv!r} {unit_txt}; the report line {lab!r} '
+                                                         f'prints {t[0].strip()!r}'))
             continue
         ok = _printed_matches(v, toks[0])
         if ok is None:
